@@ -274,13 +274,13 @@ func panicSite() (site, caller string) {
 }
 
 type outcome struct {
-	v      any
-	err    error
+	v       any
+	err     error
 	paniced bool
-	pval   any
-	site   string
-	caller string
-	alloc  uint64
+	pval    any
+	site    string
+	caller  string
+	alloc   uint64
 }
 
 var allocSample = []metrics.Sample{{Name: "/gc/heap/allocs:bytes"}}
